@@ -272,6 +272,8 @@ def run(ctx):
     if evs:
         _bases, binds, _copied = dict_bindings(cm, evs[0].args[1])
         vv = binds.get("r")
+        if vv is not None:
+            vv = expand_aliases(vv, single_assign_aliases(cm))
         if isinstance(vv, ast.Call):
             rr = prog.resolve_expr(sel, vv.func)
             ok = isinstance(rr, DefRef) and rr.qualname.endswith("WrappedRecord") and bool(vv.args) and norm(vv.args[0]) == p
